@@ -71,7 +71,7 @@ func (e *c16Env) send(j *c16Job) {
 	ctx := context.Background()
 	if j.callerCtx != nil {
 		ctx = j.callerCtx
-	} else if j.id%3 == 1 {
+	} else if j.id%3 == 1 && j.gate == nil {
 		// the caller's context is cancelled right after Send returned (a request-scoped context):
 		// the job was accepted and must run all the same
 		c, cancel := context.WithCancel(ctx)
